@@ -200,7 +200,22 @@ bool Broker::apply_pfaults(PfWhen when, BConn& c, Packet& p, ns_t& delay, bool& 
     return killed;
 }
 
+bool Broker::repeat_recent_final_acks(int conn) {
+    BConn* c = bc(conn);
+    if (!c || c->recent_final_acks.empty() || knobs.dup_ack_p <= 0 || healed || c->client_gone) return false;
+    auto acks = c->recent_final_acks;      // emit() may re-enter
+    bool any = false;
+    for (auto& [a, ridx] : acks) {
+        int sidx = emit(*c, a, 0, ridx);
+        if (sidx < 0) continue;
+        sent[sidx].dup_ack = true; w.count("fault.duplicate_ack"); any = true;
+    }
+    if (any) w.count("fault.duplicate_ack_placed");
+    return any;
+}
+
 void Broker::maybe_duplicate(BConn& c, const Packet& a, ns_t delay, int ridx) {
+    c.recent_final_acks.emplace_back(a, ridx); if (c.recent_final_acks.size() > 16) c.recent_final_acks.pop_front();
     if (knobs.dup_ack_p <= 0 || healed) return;
     auto r = rng_for(c.conn, "dupack", ++emit_counter_);
     if (!r.chance(knobs.dup_ack_p)) return;
